@@ -49,3 +49,9 @@ META["C04"] = {
     "level_note": "fake clocks move only when the harness moves them; TimeOfRound recomputed by the harness in integers",
     "technique": "runtime monitoring: wire tap with an online timing oracle on per-node fake clocks, forced interleaving through a parking hook",
 }
+META["C05"] = {
+    "level": "fault_enumeration",
+    "level_text": "for every generated fault script (sequences over partition / blackout / isolation / stop-restart / loss, all (n,t) and back-ends) the healed network caught up with its clocks within the stated step bound, kept producing each due round, and restarted nodes contributed again; unbounded 'eventually' is out of reach and restated as this bound",
+    "level_note": "fault scripts are sampled from a grammar, not exhaustively enumerated; bound chosen generously (3x the ideal catch-up)",
+    "technique": "runtime monitoring under injected faults: bounded-progress oracle in logical clock steps over real handler networks",
+}
